@@ -733,3 +733,150 @@ func scenC18Reopen(k *K) {
 	k.Notes["nontrivial"] = parked && stillParked
 	k.StopPeer(np)
 }
+
+func init() {
+	Register(&Scenario{Prop: "C18", Name: "close-sibling-during-exchange", Run: scenC18Sibling, SoftParks: true, Weight: 1,
+		Rule: "instances X and P share 2-3 databases; the link is cut until both sides have seen it, both write 1-3 entries into every database, the link heals; 0-60 kernel steps into the head exchanges that follow (joins observed, pairwise channel being set up, heads under way) X closes one of its databases (sometimes P closes one too); no further fault; oracle: within 120 virtual seconds the world is at rest and, for every database still open on both, each side holds every acknowledged write of the other: closing a database is scoped to that database; non-trivial = the closed store had taken part in an exchange with the other peer before it was closed"})
+}
+
+func scenC18Sibling(k *K) {
+	X, err := k.StartPeer(k.W.AddNode())
+	if err != nil {
+		panic(abortPanic{err.Error()})
+	}
+	P, err := k.StartPeer(k.W.AddNode())
+	if err != nil {
+		panic(abortPanic{err.Error()})
+	}
+	peers := []*Peer{X, P}
+	ids := []string{X.DB.Identity().ID, P.DB.Identity().ID}
+	ndb := k.C.Range(2, 3)
+	types := []string{"keyvalue", "eventlog", "docstore"}
+	type rec struct {
+		addr   string
+		st     [2]iface.Store
+		acked  [2][]string
+		closed [2]bool
+	}
+	var dbs []*rec
+	for d := 0; d < ndb; d++ {
+		typ := types[k.C.Intn(3)]
+		op := k.Do(0, "create", 50, func() (interface{}, error) {
+			ctx, cancel := OpCtx(time.Minute)
+			defer cancel()
+			return X.DB.Create(ctx, fmt.Sprintf("db%d", d), typ, &orbitdb.CreateDBOptions{AccessController: WriteACL(ids...)})
+		})
+		if !op.Done || op.Err != nil {
+			panic(abortPanic{fmt.Sprint(op.Err)})
+		}
+		r := &rec{}
+		r.st[0] = op.Val.(iface.Store)
+		r.addr = r.st[0].Address().String()
+		dbs = append(dbs, r)
+	}
+	for _, r := range dbs {
+		r := r
+		op := k.Do(1, "open", 400, func() (interface{}, error) {
+			ctx, cancel := OpCtx(10 * time.Minute)
+			defer cancel()
+			return P.DB.Open(ctx, r.addr, nil)
+		})
+		if !op.Done || op.Err != nil {
+			panic(abortPanic{fmt.Sprint(op.Err)})
+		}
+		r.st[1] = op.Val.(iface.Store)
+	}
+	k.Settle(30*time.Second, 1500, nil)
+	// ---- cut, seen by both; writes on both sides ----
+	k.F = BenignCfg()
+	k.Cut(0, 1)
+	for j := 0; j < 40; j++ {
+		k.Step()
+	}
+	k.Tick(2500 * time.Millisecond)
+	for j := 0; j < 40; j++ {
+		if en, _ := k.PendingCount(); en == 0 {
+			break
+		}
+		k.Step()
+	}
+	k.Tick(1500 * time.Millisecond)
+	wseq := 0
+	for _, r := range dbs {
+		for side := 0; side < 2; side++ {
+			for j, m := 0, k.C.Range(1, 3); j < m; j++ {
+				wseq++
+				val := fmt.Sprintf("w%d.%d", side, wseq)
+				st := r.st[side]
+				op := k.Do(side, "write "+val, 20, func() (interface{}, error) {
+					ctx, cancel := OpCtx(time.Minute)
+					defer cancel()
+					return c09Write(ctx, st, val)
+				})
+				if !op.Done || op.Err != nil {
+					k.Failf("C18/write-error", "write by an authorised writer failed: done=%v err=%v", op.Done, op.Err)
+				}
+				r.acked[side] = append(r.acked[side], op.Val.(operation.Operation).GetEntry().GetHash().String())
+			}
+		}
+	}
+	k.Steps(k.C.Intn(10))
+	// ---- heal; a database is closed while the head exchanges are under way ----
+	k.Heal(0, 1)
+	k.F = FaultCfg{Deliver: 4, Refresh: 3, Serve: 3, Tick: 2}
+	k.Steps(k.C.Intn(61))
+	target := k.C.Intn(ndb)
+	closers := []int{0}
+	if k.C.Chance(1, 3) {
+		closers = append(closers, 1)
+	}
+	tookPart := false
+	for _, side := range closers {
+		r := dbs[target]
+		if side == 1 {
+			r = dbs[k.C.Intn(ndb)]
+		}
+		if r.closed[side] {
+			continue
+		}
+		if side == 0 {
+			tookPart = true
+		}
+		st := r.st[side]
+		op := k.Go(side, "close-store", func() (interface{}, error) { return nil, st.Close() })
+		k.Wait()
+		for j := 0; j < 120 && !k.IsDone(op); j++ {
+			k.Step()
+		}
+		if !k.IsDone(op) {
+			k.Tick(35 * time.Second)
+		}
+		if !k.IsDone(op) {
+			k.Failf("C18/close-hang/close-store", "Close of one of %d databases during the head exchanges after a heal did not return within 30 virtual seconds", ndb)
+		}
+		r.closed[side] = true
+		k.Steps(k.C.Intn(8))
+	}
+	k.F = BenignCfg()
+	rest := k.Settle(120*time.Second, 4000, nil)
+	checked := 0
+	for i, r := range dbs {
+		if r.closed[0] || r.closed[1] {
+			continue
+		}
+		for side := 0; side < 2; side++ {
+			have := LogHashSet(r.st[side])
+			for _, h := range r.acked[1-side] {
+				if !have[h] {
+					k.Failf("C18/sibling-replication-stopped", "after n%d closed database #%d (of %d) during the head exchanges that followed a heal, database #%d, open on both sides, stays behind on n%d: it holds %d entries and lacks an acknowledged write of the other side (at rest: %v, 120 virtual seconds after the last close; pending=%v); n0 %v, n1 %v", closers[0], target, ndb, i, side, len(have), rest, k.PendingDesc(), LogNames(r.st[0]), LogNames(r.st[1]))
+				}
+			}
+			checked++
+		}
+	}
+	k.Notes["checked"] = checked
+	k.Notes["nontrivial"] = checked > 0 && tookPart
+	for _, p := range peers {
+		k.StopPeer(p)
+	}
+}
